@@ -12,7 +12,7 @@ OV == {"x", "y", "z"}
 Ops == [op : {"new", "inc", "add", "total", "twice", "readn", "writen", "opn", "pushitems", "bumpvia", "setb", "inlist", "unwrap_reassign",
               "label", "tagop", "subn", "divn", "dec", "fork_inc"}, v : OV]
        \cup [op : {"alias", "fork", "me", "is", "adopt", "read_op_inc", "share", "pick_inc"}, v : OV, w : OV]
-       \cup [op : {"pair_bump_a", "pair_read_b", "pair_b_inc", "outside", "finc", "ftotal", "fnew", "ffork", "localclass", "localclass2"}]
+       \cup [op : {"pair_bump_a", "pair_read_b", "pair_b_inc", "outside", "finc", "ftotal", "fnew", "ffork", "localclass", "localclass2", "swapnew"}]
 
 VARIABLE hist
 Init == hist = <<>>
@@ -65,6 +65,17 @@ Pair ==
                    Method("bump_a", <<>>, "int", <<Ret(MCall(SelfF("a"), "inc", <<>>))>>),
                    Method("has_b", <<>>, "bool", <<Ret(Bin("!=", SelfF("b"), Nil))>>)>>]
 
+(* a class whose constructor parameters and locals are named like its fields, and are used crosswise and after the fields were *)
+(* set: parameters and locals of the constructor are variables of the constructor, the fields are reached through `self`       *)
+Swap ==
+    [k |-> "class", n |-> "Swap", export |-> FALSE,
+     fields |-> <<Field("first", "int"), Field("second", "int"), Field("steps", "int")>>,
+     ctor |-> <<[ps |-> <<P("first", "int"), P("second", "int")>>,
+                 b |-> <<SetSelf("first", V("second")), SetSelf("second", V("first")),
+                         Let("steps", Bin("+", V("first"), I(100))), SetSelf("steps", V("steps")),
+                         Let("first", Bin("+", V("first"), I(1000))), Let("steps", Bin("+", V("steps"), V("first")))>>]>>,
+     methods |-> <<Method("sum", <<>>, "int", <<Ret(Bin("+", Bin("*", SelfF("first"), I(100)), Bin("+", SelfF("second"), SelfF("steps"))))>>)>>]
+
 (* a function that declares its own class and returns a fresh instance's state: it can be called any number of times *)
 LocalClassFn ==
     Let("lcf", Fn("lcf", <<P("s", "int")>>, "int",
@@ -82,7 +93,7 @@ LocalClassFn2 ==
                          Method("again", <<>>, "Self", <<Ret(New("Self", <<Bin("+", SelfF("q"), I(1))>>))>>)>>],
           Let("lo", New("Local", <<V("s")>>)), Let("l2", MCall(V("lo"), "again", <<>>)), Ret(MCall(V("l2"), "twice", <<>>))>>))
 Prologue == <<[k |-> "import", form |-> "names", path |-> "lib", names |-> <<"mk">>], LocalClassFn, LocalClassFn2,
-              Let("made", I(0)), Counter, Pair,
+              Let("made", I(0)), Counter, Pair, Swap,
               Let("x", New("Counter", <<I(1)>>)), Let("f", Call(V("mk"), <<I(3)>>)),
               Let("y", New("Counter", <<I(2)>>)), Let("z", V("x")),
               Let("p", New("Pair", <<V("x")>>)),
@@ -139,6 +150,8 @@ Stmts(o, k) ==
       [] o.op = "localclass" -> <<Print(Call(V("lcf"), <<I(k)>>)), Print(Call(V("lcf"), <<I(k + 1)>>))>>
       [] o.op = "finc" -> <<Print(MCall(V("f"), "inc", <<>>))>>
       [] o.op = "ftotal" -> <<Print(MCall(V("f"), "total", <<>>))>>
+      [] o.op = "swapnew" -> <<Let("sw", New("Swap", <<I(k), I(k + 1)>>)), Print(Fld(V("sw"), "first")), Print(Fld(V("sw"), "second")),
+                               Print(Fld(V("sw"), "steps")), Print(MCall(V("sw"), "sum", <<>>))>>
       [] o.op = "fnew" -> <<Let("f", Call(V("mk"), <<I(4 + k)>>)), Print(MCall(V("f"), "inc", <<>>))>>
 
 RECURSIVE Steps(_, _)
